@@ -6,6 +6,7 @@ import (
 	"time"
 
 	"github.com/0xReLogic/Helios/internal/utils"
+	"github.com/0xReLogic/Helios/internal/vhook"
 )
 
 // RateLimiter defines the interface for rate limiting
@@ -46,6 +47,7 @@ func NewTokenBucketRateLimiter(maxTokens int, refillRate time.Duration) *TokenBu
 // Allow checks if a request from the given client IP is allowed with optimized locking
 func (rl *TokenBucketRateLimiter) Allow(clientIP string) bool {
 	b := rl.getOrCreateBucket(clientIP)
+	vhook.Yield("rl.allow.lock")
 
 	b.mutex.Lock()
 	defer b.mutex.Unlock()
@@ -69,6 +71,7 @@ func (rl *TokenBucketRateLimiter) getOrCreateBucket(clientIP string) *bucket {
 		return value.(*bucket)
 	}
 
+	vhook.Yield("rl.bucket.miss")
 	// Create new bucket
 	newBucket := &bucket{
 		tokens:     rl.maxTokens,
@@ -120,6 +123,7 @@ func (rl *TokenBucketRateLimiter) cleanup() {
 		b.mutex.Unlock()
 
 		if shouldDelete {
+			vhook.Yield("rl.cleanup.delete")
 			rl.buckets.Delete(ip)
 		}
 		return true // continue iteration
